@@ -55,6 +55,7 @@ type Tree struct {
 	leafSequence   uint32
 	branchSequence uint32
 	isReplaying    bool
+	replayValue    []byte // value of the leaf being replayed (Set carries its hash while replaying)
 	evictionDepth  int8
 }
 
@@ -404,6 +405,7 @@ func (tree *Tree) recursiveSet(node *Node, key []byte, value []byte) (
 			tree.mutateNode(node)
 			if tree.isReplaying {
 				node.hash = value
+				node.value = tree.replayValue
 			} else {
 				if wasDirty {
 					tree.workingBytes -= node.sizeBytes()
@@ -661,6 +663,7 @@ func (tree *Tree) NewLeafNode(key []byte, value []byte) *Node {
 
 	if tree.isReplaying {
 		node.hash = value
+		node.value = tree.replayValue
 	} else {
 		node.value = value
 		node._hash()
